@@ -48,7 +48,7 @@ Controllable ==
         \/ c \in Actors /\ pc[c] = "intx" /\ EndWithCleanup(c, FALSE) /\ Ctl("idle_tx_timeout", c, "")
         \/ c \in Actors /\ EarlyReturn(c) /\ Ctl("early_return", c, "")
         \/ CheckoutTimeout(c) /\ Ctl("checkout_timeout", c, "")
-        \/ c \in Actors /\ pc[c] \in {"idle", "intx", "wait"} /\ Cancel(c) /\ Ctl("cancel", c, "")
+        \/ c \in Actors /\ pc[c] \in {"idle", "intx", "wait", "gone"} /\ Cancel(c) /\ Ctl("cancel", c, "")
 
 Internal ==
   /\ \E c \in Clients :
@@ -58,7 +58,7 @@ Internal ==
   /\ UNCHANGED hist
 
 \* bad: this behaviour breaks a PoolCore invariant (only possible with deviations enabled)
-Bad == viol # {} \/ ~IdleIsClean \/ ~NoLeak \/ ~MapSound \/ ~ExclusiveHold \/ ~Bounded
+Bad == viol # {} \/ ~IdleIsClean \/ ~NoLeak \/ ~MapSound \/ ~ExclusiveHold \/ ~Bounded \/ ~HoldsOnlyInTx
 
 Settle ==
   /\ ~InternalEnabled /\ hist # <<>> /\ ~Settled
